@@ -232,6 +232,15 @@ def conds(tier):
                     family="two callers: callee pair x spellings x arguments x delays x dirty, symbolic schedule",
                     encodes=ENC, extra_pre=pre,
                     shard_filter=(lambda pair, sp0, sp1: sp0 in (0, 3)) if q else None))
+    if q:
+        ps = []
+        for i in range(3):
+            ps += [I("cal%d" % i, 0, 0), I("sp%d" % i, 0, 0), I("a%d" % i, 1, 1), I("b%d" % i, 1, 1),
+                   I("c%d" % i, 0, 0), I("dl%d" % i, 0, 2), B("dirty%d" % i)]
+        ps += [I("p0"), I("p1"), I("ho", 0, 1), I("fk", 0, 1), B("again")]
+        out.append(Cond("three_q", mk(3), ps, pin=6, builds=("C",), budget=200,
+                        family="three callers of one key: delays x dirty() flags, symbolic schedule (a later caller "
+                               "after dirty() + re-creation)", encodes=ENC))
     if not q:
         ps = []
         for i in range(3):
